@@ -1618,9 +1618,15 @@ sexp sexp_register_optimization (sexp ctx, sexp self, sexp_sint_t n, sexp f, sex
     maybe_convert_complex(z, f)                                         \
     else                                                                \
       return sexp_type_exception(ctx, self, SEXP_NUMBER, z);            \
-    if (d < a || d > b)							\
-      return sexp_complex_normalize					\
-	(f(ctx, sexp_make_complex(ctx, z, SEXP_ZERO)));			\
+    if (d < a || d > b) {						\
+      /* keep the temporary complex rooted while f allocates */        \
+      sexp_gc_var1(tmp);                                                \
+      sexp_gc_preserve1(ctx, tmp);                                      \
+      tmp = sexp_make_complex(ctx, z, SEXP_ZERO);                       \
+      tmp = f(ctx, tmp);                                                \
+      sexp_gc_release1(ctx);                                            \
+      return sexp_complex_normalize(tmp);                               \
+    }                                                                   \
     return sexp_make_flonum(ctx, cname(d));                             \
   }
 #else
